@@ -18,7 +18,7 @@ Lemma upto_raise_cut : forall pr lg,
   end.
 Proof.
   intros pr. induction lg as [|e r IH]; [reflexivity|].
-  destruct e as [p k o s|p k v|p k i l]; cbn [visits_of flat_map app]; fold (visits_of r).
+  destruct e as [p k o s|p k rr v|p k i l]; cbn [visits_of flat_map app]; fold (visits_of r).
   - cbn [clean forallb raises mvisit_of cut negb andb]. destruct (upto_raise pr (visits_of r)); cbn in *; exact IH.
   - cbn [upto_raise]. cbn [clean forallb raises mvisit_of cut].
     destruct (run_prog pr p k (shallow v)) as [a|].
@@ -35,36 +35,37 @@ Theorem agree_implies_rebuild : forall c,
   res_eqb obj_eqb (outcome_result (model_remap c)) (canon_res (c_out c)) = true ->
   list_eqb vcall_eqb (outcome_calls (model_remap c)) (c_calls c) = true ->
   hooks_match (model_remap c) (c_hooks c) = true ->
+  ids_match (model_remap c) (c_out c) (c_call_ids c) = true ->
   ok_rebuild c = true.
 Proof.
-  intros c Hg H1 H2 H3. unfold ok_rebuild. unfold model_remap in *.
+  intros c Hg H1 H2 H3 H4. unfold ok_rebuild. unfold model_remap in *.
   set (s := spec_remap (visit_of (c_visit c)) (c_in c)) in *.
   destruct (c_reraise c) eqn:Er.
   - (* reraise_visit = True *)
-    rewrite remap_reraise in H1, H2, H3.
-    rewrite total_mvisit_of in H1, H2, H3.
-    rewrite (srb_root_same (visit_of (c_visit c)) (collect_defs (c_in c)) (c_in c) Hg) in H1, H2, H3.
-    change (srb_root spec_blank (visit_of (c_visit c)) (collect_defs (c_in c)) (c_in c)) with s in H1, H2, H3.
+    rewrite remap_reraise in H1, H2, H3, H4.
+    rewrite total_mvisit_of in H1, H2, H3, H4.
+    rewrite (srb_root_same (visit_of (c_visit c)) (collect_defs (c_in c)) (c_in c) Hg) in H1, H2, H3, H4.
+    change (srb_root spec_blank (visit_of (c_visit c)) (collect_defs (c_in c)) (c_in c)) with s in H1, H2, H3, H4.
     destruct (c_visit c) as [pr|] eqn:Ev.
     + destruct s as [v m lg|e lg|]; cbn [outcome_calls cutO] in *.
       * assert (L := upto_raise_cut pr lg). destruct (upto_raise pr (visits_of lg)) as [cs|].
         -- destruct L as [L1 L2]. rewrite L1 in H1, H2, H3. cbn [outcome_result outcome_calls] in H1, H2.
            rewrite L2. rewrite H1, H2. reflexivity.
-        -- rewrite L in H1, H2, H3. cbn [outcome_calls] in H2. rewrite H1, H2, H3. reflexivity.
+        -- rewrite L in H1, H2, H3, H4. cbn [outcome_calls] in H2. rewrite H1, H2, H3, H4. reflexivity.
       * assert (L := upto_raise_cut pr lg). destruct (upto_raise pr (visits_of lg)) as [cs|].
         -- destruct L as [L1 L2]. rewrite L1 in H1, H2, H3. cbn [outcome_result outcome_calls] in H1, H2.
            rewrite L2. rewrite H1, H2. reflexivity.
-        -- rewrite L in H1, H2, H3. cbn [outcome_calls] in H2. rewrite H1, H2, H3. reflexivity.
-      * cbn in *. rewrite H1, H2, H3. reflexivity.
+        -- rewrite L in H1, H2, H3, H4. cbn [outcome_calls] in H2. rewrite H1, H2, H3, H4. reflexivity.
+      * cbn in *. rewrite H1, H2, H3, H4. reflexivity.
     + assert (Hc : forall o, cutO (mvisit_of None) o = o).
       { intros [v m lg|e lg|]; cbn [cutO]; try reflexivity;
           (replace (clean (mvisit_of None) lg) with true; [reflexivity|]);
           induction lg as [|x r IH]; cbn; try reflexivity; exact IH. }
-      rewrite Hc in H1, H2, H3. rewrite H1, H2, H3. reflexivity.
+      rewrite Hc in H1, H2, H3, H4. rewrite H1, H2, H3, H4. reflexivity.
   - (* reraise_visit = False *)
-    rewrite (remap_no_reraise _ true) in H1, H2, H3. rewrite total_mvisit_of in H1, H2, H3.
-    rewrite (machine_refines_spec _ true _ Hg) in H1, H2, H3. fold s in H1, H2, H3.
-    rewrite H1, H2, H3. reflexivity.
+    rewrite (remap_no_reraise _ true) in H1, H2, H3, H4. rewrite total_mvisit_of in H1, H2, H3, H4.
+    rewrite (machine_refines_spec _ true _ Hg) in H1, H2, H3, H4. fold s in H1, H2, H3, H4.
+    rewrite H1, H2, H3, H4. reflexivity.
 Qed.
 
 (* ---- research / get_path ---------------------------------------------------- *)
